@@ -6,9 +6,10 @@
 (* one transcribing one function / critical section of the code:           *)
 (*                                                                         *)
 (*   GetNext            modelx/core/util.py    AutoNamer.get_next (29-39)  *)
-(*   ImplInit           modelx/core/model.py   ModelImpl.__init__ (868-873)*)
 (*   ImplRename         modelx/core/model.py   ModelImpl.rename  (893-902) *)
 (*   SysNewModel        modelx/core/system.py  System.new_model  (601-608) *)
+(*                      with ModelImpl.__init__ (model.py 868-873: automatic*)
+(*                      name / ValueError for an invalid name)             *)
 (*   SysRenameModel     modelx/core/system.py  System.rename_model(610-623)*)
 (*   SysRenameSameName  modelx/core/system.py  System._rename_samename     *)
 (*                                             (625-632)                   *)
@@ -37,20 +38,24 @@
 (* plus a ghost (which models the user opened and did not close, which     *)
 (* references between models the user made).  They never look at S.        *)
 (*                                                                         *)
-(* Part 3 model-checks part 1 against part 2 (Obs(S) is the observation);  *)
-(* part 4 judges recorded executions of the real library with part 2 and   *)
-(* compares them with part 1 (disagreement there is DRIFT, not a verdict). *)
+(* Part 3 model-checks part 1 against part 2: every transition computes    *)
+(* bad' = the labels of the part-2 predicates that are false on            *)
+(* (Obs(S), ghost, operation, Obs(S')), and each predicate has its own      *)
+(* INVARIANT "label \notin bad".  Part 4 judges recorded executions of the  *)
+(* real library with part 2 and compares them with part 1 (disagreement    *)
+(* there is DRIFT, not a verdict).                                         *)
 (***************************************************************************)
 EXTENDS Naturals, Integers, Sequences, FiniteSets, TLC, Json, IOUtils, TLCExt
 
-CONSTANTS MaxOps,      \* bound on the number of public operations (BFS level)
+CONSTANTS MaxOps,      \* bound on the number of public operations of a history
           MaxModels,   \* bound on the number of models created in a history
           Dump,        \* TRUE: print one history per explored transition (spec -> code)
           BaseNames,   \* names the user passes explicitly
           BadNames,    \* names that util.is_valid_name refuses
           NFiles,      \* how many of the saved models the model checker reads
           EditKinds,   \* which abstract edits the model checker enumerates ({"defs","value"})
-          Linking      \* TRUE: references between models and evaluations are enumerated
+          Linking,     \* TRUE: references between models and evaluations are enumerated
+          StaleOps     \* TRUE: close is also made through handles of models closed before
 
 VARIABLES S,      \* algorithm-layer state (expected state when validating a trace)
           nops,   \* number of public operations so far (model checking)
@@ -148,10 +153,14 @@ SysNewModel(s, name) ==
                                  !.into = Append(@, {})],
                 r |-> "ok", id |-> id]
 
-\* System.close_model (system.py 657-661)
+\* System.close_model (system.py 657-661).  The registry entry is found through the
+\* model's NAME: for an open model that is its own entry; through the handle of a model
+\* that was closed before it is a KeyError or -- when another model took the name
+\* since -- the entry of that other model (KF:C19.StaleHandleCloseDropsNamesake).
 SysCloseModel(s, m) ==
-    [s EXCEPT !.reg = Drop(@, {s.nm[m]}),                                  \* 659 del self.models[model.name]
-              !.cur = IF @ = m THEN 0 ELSE @]                              \* 660-661
+    IF s.nm[m] \notin DOMAIN s.reg THEN s                                  \* 659 KeyError
+    ELSE [s EXCEPT !.reg = Drop(@, {s.nm[m]}),                             \* 659 del self.models[model.name]
+                   !.cur = IF @ = m THEN 0 ELSE @]                         \* 660-661
 
 \* read_model: a model with an automatic name is created first, then renamed
 \* to the requested / stored name with rename_old=True; when that raises the
@@ -175,7 +184,8 @@ ApiRename(s, m, name, ro) ==
     LET r == SysRenameModel(s, name, s.nm[m], ro)
     IN [s |-> r.s, r |-> IF r.r = "ValueError" THEN "ValueError" ELSE "ok", id |-> 0]
 
-ApiClose(s, m) == [s |-> SysCloseModel(s, m), r |-> "ok", id |-> 0]
+ApiClose(s, m) == [s |-> SysCloseModel(s, m),
+                   r |-> IF s.nm[m] \in DOMAIN s.reg THEN "ok" ELSE "KeyError", id |-> 0]
 
 \* models reachable from X through references between models
 RECURSIVE ReachFrom(_, _)
@@ -280,12 +290,30 @@ Isolation(po, g, e, o) ==
         /\ o.defs[i] = po.defs[i]
         /\ o.vals[i] = po.vals[i] \/ Linked(g.links, i, Subject(e))
 
+\* KNOWN FINDING, classified exactly: close() through the handle of a model that was
+\* closed before, while ANOTHER model is registered under the name the stale handle
+\* still reports, removes that other model's entry and nothing else
+\* (System.close_model deletes self.models[model.name]).
+KF_StaleHandleClose(po, g, e, o) ==
+    /\ e.op = "close" /\ e.m \notin g.open
+    /\ \E h \in po.handles : h[1] = e.m
+    /\ \E t \in po.models :
+          /\ t[2] # e.m
+          /\ t[1] = (CHOOSE h \in po.handles : h[1] = e.m)[2]
+          /\ RegOf(o) = RegOf(po) \ {<<t[1], t[2]>>}
+
 PropLabels(po, g, g2, e, o) ==
-       (IF NamesUniqueAndCurrent(o, g2)       THEN {} ELSE {"C19.NamesUniqueAndCurrent"})
-  \cup (IF HandlesFollow(o, g2)               THEN {} ELSE {"C19.HandlesFollow"})
-  \cup (IF NoModelDropped(po, g2, e, o)       THEN {} ELSE {"C19.NoModelDropped"})
-  \cup (IF CloseRemovesExactlyOne(po, e, o)   THEN {} ELSE {"C19.CloseRemovesExactlyOne"})
-  \cup (IF Isolation(po, g, e, o)             THEN {} ELSE {"C19.Isolation"})
+    LET base ==
+           (IF NamesUniqueAndCurrent(o, g2)       THEN {} ELSE {"C19.NamesUniqueAndCurrent"})
+      \cup (IF HandlesFollow(o, g2)               THEN {} ELSE {"C19.HandlesFollow"})
+      \cup (IF NoModelDropped(po, g2, e, o)       THEN {} ELSE {"C19.NoModelDropped"})
+      \cup (IF CloseRemovesExactlyOne(po, e, o)   THEN {} ELSE {"C19.CloseRemovesExactlyOne"})
+      \cup (IF Isolation(po, g, e, o)             THEN {} ELSE {"C19.Isolation"})
+    IN IF base \cap {"C19.NoModelDropped", "C19.CloseRemovesExactlyOne"} # {}
+          /\ KF_StaleHandleClose(po, g, e, o)
+       THEN (base \ {"C19.NoModelDropped", "C19.CloseRemovesExactlyOne"})
+                \cup {"KF:C19.StaleHandleCloseDropsNamesake"}
+       ELSE base
 
 -----------------------------------------------------------------------------
 (* PART 3 -- exhaustive model checking of part 1 against part 2            *)
@@ -336,16 +364,16 @@ Next ==
     \/ \E k \in 1..NFiles, nn \in GivenNames : ReadModel(k, nn)
     \/ \E m \in gh.open, nn \in BaseNames \cup BadNames \cup DOMAIN S.reg, ro \in BOOLEAN :
           Rename(m, nn, ro)
-    \/ \E m \in gh.open : Close(m)
+    \/ \E m \in (IF StaleOps THEN 1..Len(S.nm) ELSE gh.open) : Close(m)
     \/ \E m \in gh.open, kind \in EditKinds : Edit(m, kind)
     \/ Linking /\ \E m \in gh.open, t \in gh.open : Xref(m, t)
     \/ Linking /\ \E m \in gh.open : Eval(m)
 
 Spec == Init /\ [][Next]_vars
 
-\* the history and the last operation are not part of a state's identity: every
-\* TRANSITION is still generated and checked against the action properties
-\* Nor are the current model (nothing reads it) and what is left of closed models
+\* The history and the last operation are not part of a state's identity: every
+\* TRANSITION is still generated and judged (bad' is part of the identity of the
+\* successor).  Nor are the current model (nothing reads it) and what is left of closed models
 \* (their last name, definitions, values): no operation is made on a closed
 \* model and nothing in the registry depends on them.
 OpenOnly(f, dflt) == [i \in DOMAIN f |-> IF i \in gh.open THEN f[i] ELSE dflt]
@@ -358,6 +386,7 @@ Inv_C19_HandlesFollow          == "C19.HandlesFollow"          \notin bad
 Inv_C19_NoModelDropped         == "C19.NoModelDropped"         \notin bad
 Inv_C19_CloseRemovesExactlyOne == "C19.CloseRemovesExactlyOne" \notin bad
 Inv_C19_Isolation              == "C19.Isolation"              \notin bad
+Inv_KF_StaleHandleClose        == "KF:C19.StaleHandleCloseDropsNamesake" \notin bad
 Inv_Algo_NoPanic               == ~S.panic
 
 \* spec -> code: print the history of every explored transition
@@ -385,8 +414,9 @@ ObsOfPost(p) ==
 WellFormed(s, e) ==
     CASE e.op \in {"new_model"} -> TRUE
       [] e.op = "read_model" -> e.file \in 1..Len(Stored)
-      [] e.op \in {"rename", "close"} ->
+      [] e.op = "rename" ->
             e.m \in 1..Len(s.nm) /\ s.nm[e.m] \in DOMAIN s.reg /\ s.reg[s.nm[e.m]] = e.m
+      [] e.op = "close" -> e.m \in 1..Len(s.nm)
       [] e.op \in {"edit", "eval"} -> e.m \in 1..Len(s.nm)
       [] e.op = "xref" -> e.m \in 1..Len(s.nm) /\ e.t \in 1..Len(s.nm)
       [] OTHER -> FALSE
